@@ -398,6 +398,18 @@ func (x *Exec) equalTerms(s *State, l, r *Term, t types.Type) *Term {
 		}
 	}
 	if l.S != r.S {
+		// comparison with an untyped nil (modelled as integer 0)
+		isNil := func(t *Term) bool { return t.S == SInt && t.rat != nil && t.rat.Sign() == 0 }
+		for _, pr := range [][2]*Term{{l, r}, {r, l}} {
+			if isNil(pr[1]) {
+				switch pr[0].S {
+				case IfaceSort:
+					return Eq(Field(pr[0], 0), IntLit(0))
+				case SliceSort:
+					return Eq(Field(pr[0], 0), IntLit(0))
+				}
+			}
+		}
 		l, r = coerce(l, r)
 		if l.S != r.S {
 			// interface vs concrete etc.
